@@ -1,12 +1,2 @@
 ALL_IDS = ["C%02d" % i for i in range(1, 19)]
 NOT_APPLICABLE_REASONS = {}
-META = {}
-META["C03"] = {
-    "text": "Kernel-checked theorem allowed_holds: for every input (any peers, metric states, lists, factor pair, both strategies) and every "
-            "output the model relation of allocate() admits under any map-iteration order and any tie-break of Go's unstable sort, all clauses "
-            "of the property hold (no size bound). The relation is tied to today's code by running the real allocate()/allocators/metrics.Store "
-            "on thousands of seeded cases per run and checking (a) the real output is in the relation and (b) the Lean property checker on the real output.",
-    "note": "Trusted: Lean kernel (+propext, Classical.choice, Quot.sound), the hand-written model/spec, the Go harness and its store-backed monitor, "
-            "verif_export.go wrappers. A non-numeric metric is treated as unusable for new allocations.",
-    "technique": "Lean 4 theorem over relational model + differential correspondence with the real allocate()",
-}
